@@ -443,7 +443,7 @@ fn run(args: &Args, rep: &mut Report) {
         ),
     );
     // exhaustive small: every sequence of <= 2 representative groups, fed whole through write
-    let groups = ["", "0", "1", "4", "7", "31", "39", "44", "49", "91", "104", "38;5;1", "38;5;12", "38;5;200", "48;5;7", "48;5;16", "38;2;1;2;3", "48:2:1:2:3", "38:5:9", "58;5;1", "4:3"];
+    let groups = ["", "0", "1", "4", "7", "31", "39", "44", "49", "91", "104", "38;5;1", "38;5;12", "38;5;200", "48;5;7", "48;5;16", "38;2;1;2;3", "48:2:1:2:3", "38:5:9", "58;5;1", "4:3", "38:1", "48:3:1:2:3", "38:2::1:2:3::0"];
     let mut acc = Acc::new();
     'outer: for a in groups {
         for b in groups {
@@ -466,7 +466,7 @@ fn run(args: &Args, rep: &mut Report) {
             }
         }
     }
-    rep.add("exhaustive-pairs", true, "21 x 21 pairs of representative attribute groups (separate and combined) x 3 drivers", vec![acc]);
+    rep.add("exhaustive-pairs", true, "24 x 24 pairs of representative attribute groups (separate and combined) x 3 drivers", vec![acc]);
 
     // colour values above 255 name no colour: the run keeps its colours (value ignored) or falls
     // back to the default (value saturated, not a palette index 0-15) - never a palette colour
